@@ -148,7 +148,12 @@ func genMuts(r *hx.Rng, tc, info []byte, np, nh int, otherSK func() []byte, othe
 		}
 	}
 	cuts := []int{0, 1, np - 1, np, np + 1, np + nh - 1, np + nh, np + nh + 1, np + nh + 15, np + nh + 16, n - 17, n - 16, n - 1}
-	k := 5 + r.Intn(3)
+	// always: the most significant bit of the last byte of the encapsulated key (for X25519
+	// and X-Wing the bit the Diffie-Hellman function itself ignores), and of its first byte
+	if nh > 0 && np+nh <= n {
+		ms = append(ms, fmt.Sprintf("f%d.80", np+nh-1), fmt.Sprintf("f%d.80", np))
+	}
+	k := 7 + r.Intn(3)
 	for len(ms) < k {
 		switch r.Intn(14) {
 		case 0:
